@@ -223,6 +223,8 @@ where
         #[cfg(mini_moka_verif)]
         crate::verif::switch(crate::verif::Point::InvalidateAllBefore);
         let now = self.inner.current_time_from_expiration_clock();
+        #[cfg(mini_moka_verif)]
+        crate::verif::switch(crate::verif::Point::InvalidateAllMid);
         self.inner.set_valid_after(now);
         #[cfg(mini_moka_verif)]
         crate::verif::switch(crate::verif::Point::InvalidateAllAfter);
